@@ -53,7 +53,11 @@ def gen_plan(rng, tier, idx, opts):
     kind = rng.choice(["tdl", "tdl", "tdlmimo", "tdlmimo", "su", "sumimo", "sumimo", "mu", "mumimo"])
     gen = rng.choice(["jakes", "jakes", "rayleigh"])
     Ts = 10 ** rng.uniform(-8, -5)
-    if rng.random() < 0.2:
+    if kind in ("su", "sumimo") and rng.random() < 0.12:
+        profile = {"default": True}                  # SuChannel() / SuMimoChannel(N): flat Rayleigh channel, Ts = 1
+        gen = "default"
+        Ts = 1.0
+    elif rng.random() < 0.2:
         profile = {"cost259": rng.choice(["TUx", "RAx", "HTx"])}
         if profile["cost259"] == "HTx":
             Ts = max(Ts, 3e-7)
@@ -122,6 +126,16 @@ def build(plan):
     else:
         g = fading_generators.RayleighSampleGenerator()
     pr = plan["profile"]
+    if pr.get("default"):
+        Nr, Nt = plan["Nr"], plan["Nt"]
+        if kind == "su":
+            ch = singleuser.SuChannel()
+        elif Nr == Nt:
+            ch = singleuser.SuMimoChannel(Nr)
+        else:
+            ch = singleuser.SuChannel()
+            ch.set_num_antennas(Nr, Nt)
+        return ch, (np.zeros(1), np.ones(1))
     if "cost259" in pr:
         prof = getattr(fading, "COST259_" + pr["cost259"])
         kw = {"channel_profile": prof, "Ts": Ts}
@@ -300,6 +314,8 @@ def execute(plan):
                             ch.set_pathloss(pl.copy())
                         else:
                             pl = float(rs.uniform(1e-6, 1.0))
+                            if op["seed"] % 7 == 0:
+                                pl = 1.0 if op["seed"] % 2 else 0.0          # the ends of the admissible interval
                             ch.set_pathloss(pl)
                     log.add("pathloss", pl)
                     continue
